@@ -81,4 +81,15 @@ for cls in (common.BaseImage, common.TextImage, common.GraphicsImage, BlockImage
             continue
     cls_attrs[cls.__name__] = d
 out["__classes__"] = cls_attrs
+# what \d means for str patterns without re.ASCII in the interpreter that runs the library: the code points of category Nd
+import unicodedata  # noqa: E402
+nd, run = [], None
+for cp in range(0x30000):
+    if unicodedata.category(chr(cp)) == "Nd":
+        if run and run[1] == cp - 1:
+            run[1] = cp
+        else:
+            run = [cp, cp]
+            nd.append(run)
+out["__unicode_nd__"] = nd
 json.dump(out, sys.stdout)
